@@ -175,7 +175,7 @@ fn build(rng: &mut Rng, thorough: bool) -> Vec<Case> {
         }
     }
     // §3 tuple patterns
-    for list in g::tuple_lists(if thorough { 4 } else { 3 }) {
+    for list in g::tuple_lists(if thorough { 5 } else { 3 }) {
         if list.is_empty() {
             continue;
         }
@@ -191,7 +191,7 @@ fn build(rng: &mut Rng, thorough: bool) -> Vec<Case> {
         }
     }
     // §4 parentheses
-    for levels in g::paren_universe(3) {
+    for levels in g::paren_universe(if thorough { 4 } else { 3 }) {
         for atom in ["a", "a + b"] {
             if atom == "a" && levels.len() > 2 {
                 continue;
@@ -224,7 +224,7 @@ fn build(rng: &mut Rng, thorough: bool) -> Vec<Case> {
         }
     }
     // §6 attributes
-    for (ci, c) in g::attr_lists(rng, false).into_iter().enumerate() {
+    for (ci, c) in g::attr_lists(rng, thorough).into_iter().enumerate() {
         for (k, (merge, norm)) in [(true, false), (false, false), (true, true), (false, true)].iter().enumerate() {
             if k > 0 && (ci + k) % 3 != 0 {
                 continue;
